@@ -96,7 +96,10 @@ def check_structure(chk, m, L, N, I):
                            "inserter asserts node->next == NULL)", e.inst.loc, fn.name)
                     # ---- N3 (only for unlinking through an iterator slot)
                     root = ptr_parts(slot)[0]
-                    if iter_arg and root[0] == "ld" and root[1] == paths.mkptr(("arg", iter_arg[0]), I["prevnext"]):
+                    local_iters = set(ptr_parts(c.args[-1])[0] for c in ev if c.kind == "call" and c.callee in ("list_contains", "list_iterate")
+                                      and c.args and ptr_parts(c.args[-1])[0][0] in ("alloca", "sym"))
+                    via_local = root[0] == "ld" and ptr_parts(root[1])[0] in local_iters and ptr_parts(root[1])[1:] == (I["prevnext"], ())
+                    if via_local or (iter_arg and root[0] == "ld" and root[1] == paths.mkptr(("arg", iter_arg[0]), I["prevnext"])):
                         cmp_ = None
                         first_clear = min([j for j, x in enumerate(ev) if x.kind == "store" and ptr_parts(x.ptr) == (old, next_o, ())],
                                           default=len(ev))
@@ -169,6 +172,48 @@ def path_equalities(p):
     return lambda a, b: find(strip_casts(a)) == find(strip_casts(b))
 
 
+def slot_holds_by_invariant(m, fn, start, p, slot, node, same, head_o, next_o):
+    """The search loop carries (prev, curr) with the invariant  prev == NULL ? curr == list->head : curr == prev->next,
+    established on entry and kept by every trip round the loop; on the exit segment curr is the node and the slot written
+    is list->head (prev == NULL) or prev->next (prev != NULL).  Then the slot holds the node although this segment never
+    re-reads it."""
+    if not start or start == fn.entry.name:
+        return False
+    segs = runs_of(m, fn)
+    arrivals = [q for s_, q in segs if q.end == "cut:" + start and getattr(q, "carried", None)]
+    if not arrivals:
+        return False
+    names = set(arrivals[0].carried)
+    currs = [n for n in names if same(("sym", n), node)]
+    for cn in currs:
+        for pn in names - {cn}:
+            # which slot does this segment write?  head slot needs prev == NULL on the path, prev->next needs the slot to be it
+            r, o, v = ptr_parts(slot)
+            prev_null = any(strip_casts(c)[0] == "icmp" and strip_casts(c)[1] in ("eq", "ne") and
+                            {strip_casts(strip_casts(c)[2]), strip_casts(strip_casts(c)[3])} == {("sym", pn), ("null",)} and
+                            (strip_casts(c)[1] == "eq") == bool(t) for c, t, i in p.conds)
+            if (r, o, v) == (("arg", 0), head_o, ()):
+                if not prev_null:
+                    continue
+            elif (r, o, v) != (("sym", pn), next_o, ()):
+                continue
+            ok = True
+            for q in arrivals:
+                P, C = q.carried.get(pn), q.carried.get(cn)
+                if P is None or C is None:
+                    ok = False
+                    break
+                P, C = strip_casts(P), strip_casts(C)
+                first = P == ("null",) and C[0] == "ld" and ptr_parts(C[1]) == (("arg", 0), head_o, ())
+                step = C[0] == "ld" and ptr_parts(C[1]) == (P, next_o, ())
+                if not (first or step):
+                    ok = False
+                    break
+            if ok:
+                return True
+    return False
+
+
 def check_self_walking_remove(chk, m, fn, L, N):
     """list_remove that searches and unlinks in one walk over the links (no list_contains / iterator).  On every returning
     segment: `true` only after a complete unlink of the slot found to hold the node -- slot := node->next, node->next := NULL,
@@ -233,6 +278,8 @@ def check_self_walking_remove(chk, m, fn, L, N):
             v = strip_casts(e.val)
             if v[0] == "ld" and ptr_parts(v[1])[1:] == (next_o, ()) and same(ptr_parts(v[1])[0], node):
                 held = [x for x in ev[:k] if x.kind == "load" and x.ptr == e.ptr and same(x.val, node)]
+                if not held:
+                    held = slot_holds_by_invariant(m, fn, s, p, e.ptr, node, same, head_o, next_o)
                 if held:
                     unl = (k, e, v)
         chk.ob("N5.remove-through-found-position", sid, unl is not None,
@@ -263,6 +310,10 @@ def check_self_walking_remove(chk, m, fn, L, N):
             chk.ob("N3.tail-on-removal", sid, False,
                    "a node is unlinked without asking whether it is list->tail: removing the last node leaves tail dangling, so the next "
                    "tail insertion is lost", e_unl.inst.loc, fn.name)
+        elif is_tail and ptr_parts(e_unl.ptr) == (("arg", 0), head_o, ()):
+            chk.ob("N3.tail-on-removal", sid, True,
+                   "the victim is the tail and is unlinked from the head slot: it was the only node, the list is now empty and its tail "
+                   "is not read before the next insertion sets it", e_unl.inst.loc, fn.name)
         elif is_tail:
             r, o, v = ptr_parts(e_unl.ptr)
             want = paths.mkptr(r, o - next_o) if not v else None
@@ -404,8 +455,20 @@ def check_iterators(chk, m, L, N, I):
         ct = [e for e in calls if e.callee == "list_contains"]
         rm = [e for e in calls if e.callee == "list_iterator_remove"]
         ok = len(ct) == 1 and ct[0].args[0] == ("arg", 0) and ct[0].args[1] == ("arg", 1)
+        # the unlink may be open-coded (or come from an inlined helper): slot := victim->next through the prevnext of the
+        # iterator that list_contains positioned; its clear / tail obligations are N1 / N3's, decided on the same segment
+        inline_rm = []
+        if ok:
+            itp = ct[0].args[2]
+            for e in p.events:
+                if e.kind == "store" and e.ptr[0] == "ld" and ptr_parts(e.ptr[1]) == (ptr_parts(itp)[0], ptr_parts(itp)[1] + I["prevnext"], ()):
+                    v = strip_casts(e.val)
+                    if v[0] == "ld" and ptr_parts(v[1])[1:] == (next_o, ()):
+                        inline_rm.append(e)
         if rm:
             ok = ok and rm[0].args[0] == ct[0].args[2] and p.ret is not None and p.ret[0] == "c" and p.ret[2] == 1
+        elif inline_rm:
+            ok = ok and len(inline_rm) == 1 and p.ret is not None and p.ret[0] == "c" and p.ret[2] == 1
         else:
             ok = ok and p.ret is not None and p.ret[0] == "c" and p.ret[2] == 0
         chk.ob("N5.remove-through-found-position", "list_remove " + "->".join(b.lstrip("%") for b in p.blocks), ok,
